@@ -46,6 +46,7 @@ func TestWorker(t *testing.T) {
 		"C23":  {Run: runNetwork, Nontrivial: func(c *sim.Ctx) bool { return c.Counters["wire.GIVB"]+c.Counters["wire.GIVT"] >= 2 }},
 		"C27":  {Run: runAccess, Nontrivial: func(c *sim.Ctx) bool { return c.Counters["probe.refusal_expected"] >= 3 }},
 		"C28c": {Run: runAPIConcurrent, Nontrivial: func(c *sim.Ctx) bool { return c.Step >= 10 }},
+		"C19c": {Run: runAPIConcurrent, Nontrivial: func(c *sim.Ctx) bool { return c.Step >= 10 }},
 		"C28":  {Run: runAPICrash, Nontrivial: func(c *sim.Ctx) bool { return c.Step >= 10 }},
 		"C22":  {Run: runFraming, Nontrivial: func(c *sim.Ctx) bool { return c.Counters["probe.chunks"] >= 3 }},
 		"C24":  {Run: runBookkeeping, Nontrivial: func(c *sim.Ctx) bool { return c.Counters["probe.bookkeeping_compared"] >= 5 }},
